@@ -5,6 +5,7 @@ import json
 
 import core
 import treeops as T
+import treetable
 
 
 def corpus(name):
@@ -15,6 +16,7 @@ def corpus(name):
 
 
 def run(ctx: core.Run):
+    treetable.regenerate(ctx)
     ctx.prove(["PsdVerif.Props.C10"])
     ctx.trusted_base += T.TRUSTED
     ctx.assumptions += T.ASSUME
@@ -39,6 +41,11 @@ def run(ctx: core.Run):
         for h in hs:
             traces.append(T.run_history(("small", "L", 8), h, check_fresh=False))
         ctx.hist("exhaustive_histories", "small depth 4 (sample)", len(hs))
+    # 2b. directed families (treeops.directed_histories): stale pointers of detached groups, group_layers in every
+    # order, documentless layers in loose groups across documents, nested groups closing together, emptied documents
+    for fam, recipe, h in T.directed_histories(rng, ctx.quick):
+        traces.append(T.run_history(recipe, h, check_fresh=False))
+        ctx.hist("directed_histories", fam)
     # 3. random walks over every kind of initial tree
     recipes = T.walk_recipes()
     n_walks, max_len = (150, 12) if ctx.quick else (1000, 60)
@@ -48,6 +55,7 @@ def run(ctx: core.Run):
         traces.append(T.run_history(recipe, ops))
     # correspondence with the model after every operation
     T.compare_with_model(ctx, traces, what="C10")
+    treetable.correspond(ctx, traces, "C10")
     T.coverage(ctx, traces)
     T.report(ctx, traces, props=("C10",))
     for t in traces[:n_corpus] + traces[-3:]:
@@ -59,7 +67,7 @@ def run(ctx: core.Run):
                 "mode x depth matrix, two-document worlds, fixtures), 12%% of the inserted arguments unguarded "
                 "(already listed, non-layers, documents)." % (depth, n_walks, max_len, len(recipes)))
     ctx.exhaustive = False
-    ctx.notes += NOTES
+    ctx.notes += NOTES + treetable.NOTES
     if ctx.tier == "thorough":
         ctx.recheck(["PsdVerif.Props.C10"])
 
